@@ -48,7 +48,7 @@ def make_device(d, rng):
             return out
     unsol = [(t, l) for t, l in d.pop("unsolicited", [])]
     kw = dict(latency=latf, chunker=chunker, swallow_first=d.pop("swallow_first", 0), silent_after_replies=d.pop("silent_after", None),
-              eof_after_bytes=d.pop("eof_after_bytes", None), unsolicited=unsol)
+              eof_after_bytes=d.pop("eof_after_bytes", None), unsolicited=unsol, drop_at=d.pop("drop_at", None))
     if typ == "recorded":
         return devices.Recorded(d.pop("name"), **kw)
     return devices.Scripted(table=d.pop("table", None), model=d.pop("model", "RX-V"), version=d.pop("version", "1.00/2.00"),
